@@ -224,6 +224,9 @@ class JnpMeanPlugin(PrimitiveLeafPlugin):
 
         # Attributes
         attrs = {"keepdims": 1 if keepdims else 0}
+        if axes_attr is not None and len(axes_attr) == 0:
+            # axis=() reduces over no axis; ONNX treats an empty axes input as "all axes" by default
+            attrs["noop_with_empty_axes"] = 1
 
         ctx.builder.add_node(
             op_type="ReduceMean", inputs=inputs, outputs=[out_val], attributes=attrs
